@@ -8,6 +8,9 @@ use std::collections::BTreeMap;
 pub struct Renderer {
     /// type text (parameter form) -> (helper index, type text in result position)
     helpers: BTreeMap<String, (usize, String)>,
+    /// files to be written before the program is parsed (imports): absolute path, text
+    pub files: Vec<(String, String)>,
+    pub import_dir: String,
 }
 
 fn arr<'a>(v: &'a Value, key: &str) -> &'a [Value] {
@@ -73,7 +76,7 @@ pub fn literal(v: &Value) -> String {
 
 impl Renderer {
     pub fn new() -> Self {
-        Self { helpers: BTreeMap::new() }
+        Self { helpers: BTreeMap::new(), files: vec![], import_dir: format!("/verif/work/imports/{}", std::process::id()) }
     }
 
     fn helper(&mut self, ty: &Value) -> usize {
@@ -188,6 +191,7 @@ impl Renderer {
                 if is_none(&s["e"]) { "return".into() } else { format!("return {}", self.stmt(&s["e"], ind)) }
             }
             "mark" => format!("log += [{}]", s["i"]),
+            "import" => self.expr(s),
             _ => self.expr(s),
         }
     }
@@ -254,6 +258,12 @@ impl Renderer {
                 format!("h_{n}({})", self.expr(&e["e"]))
             }
             "mod" => format!("mod {{\n{}}}", self.stmts(arr(e, "body"), 1)),
+            "import" => {
+                let body = self.stmts(arr(e, "body"), 0);
+                let path = format!("{}/{}", self.import_dir, e["file"].as_str().unwrap());
+                self.files.push((path.clone(), body));
+                format!("import {}", string_literal(&path))
+            }
             // statement-only constructs used as the value of a set / return are rendered by stmt()
             "if" | "ifset" | "match" | "block" | "loop" | "while" | "whileset" | "for" => self.stmt(e, 0),
             other => panic!("cannot render node kind {other}"),
